@@ -7,7 +7,7 @@ From Rumqtt Require Import Client.VecLemmas Client.Run4 Client.Inv4 Client.Eff4 
     ([op_ok]).  Before the fix: commits a6a5e44 / 0960300 the event loop did that itself: a QoS>0
     publish while a collision was parked (a non-empty [pending] bypassed the flow-control guard:
     F7), a replayed PUBREL whose id was busy ([pending ++ state.clean()] put fresh-id requests in
-    front of it after a second failure: F20).  In the current loop it needs a request the client API
+    front of it after a second failure: F31).  In the current loop it needs a request the client API
     cannot produce. Parameterised by the loop variant. *)
 Definition take_ok_gen (te : lstate -> bool) (l : lstate) : bool :=
   if te l
@@ -169,15 +169,15 @@ Lemma f7_loop_witness :
   = Some ([RPublish (mkPub Q1 1 1 1)], [pq1 2; pq1 3], [], [PPublish (mkPub Q1 1 1 1)]).
 Proof. vm_compute. repeat split. Qed.
 
-(** ---- F20: a second failure before pending is drained; before commit 0960300 the queued publish
+(** ---- F31: a second failure before pending is drained; before commit 0960300 the queued publish
     overtakes the PUBREL retransmission and is sent under the id (1) whose release is still open *)
-Definition f20_loop_history : list lop :=
+Definition f31_loop_history : list lop :=
   [Reconnect true; UserSend (RPublish (mkPub Q2 0 1 1)); TakeRequest; Yield; Net [PPubRec 1]; Yield; Yield;
    UserSend (pq1 2); Fail; Reconnect true; TakeRequest; Yield; Fail; Reconnect true; TakeRequest; Yield].
 
-Lemma f20_loop_witness :
-  option_map wire (lrun_orig (linit 1 false) f20_loop_history) = Some [PPublish (mkPub Q1 1 2 2)]
-  /\ option_map (fun l => (wire l, pending l)) (lrun (linit 1 false) f20_loop_history) = Some ([PPubRel 1], [pq1 2]).
+Lemma f31_loop_witness :
+  option_map wire (lrun_orig (linit 1 false) f31_loop_history) = Some [PPublish (mkPub Q1 1 2 2)]
+  /\ option_map (fun l => (wire l, pending l)) (lrun (linit 1 false) f31_loop_history) = Some ([PPubRel 1], [pq1 2]).
 Proof. vm_compute. split; reflexivity. Qed.
 
 (** a non-trivial history on which K7 is false: window-full backlog, failure, resume, acks *)
